@@ -166,7 +166,12 @@ def positive_random(draw):
 
 @st.composite
 def negative_cases(draw):
-    kind = draw(st.sampled_from(["raw", "mut-b58", "mut-segwit", "unknown-b58-version", "pk-wrong-len-for-prefix", "pk-off-curve", "pk-x>=p", "pk-hybrid", "pk-bad-prefix", "b58-no-checksum", "segwit-wrong-hrp", "segwit-bad-proglen", "segwit-bad-proglen", "segwit-wrong-const", "segwit-bad-version", "segwit-nonzero-pad", "pk-coord-aliased"]))
+    kind = draw(st.sampled_from(["raw", "mut-b58", "mut-segwit", "unknown-b58-version", "pk-wrong-len-for-prefix", "pk-off-curve", "pk-x>=p", "pk-hybrid", "pk-bad-prefix", "b58-no-checksum", "segwit-wrong-hrp", "segwit-bad-proglen", "segwit-bad-proglen", "segwit-wrong-const", "segwit-bad-version", "segwit-nonzero-pad", "pk-coord-aliased", "b58-no-version"]))
+    if kind == "b58-no-version":
+        # checksum-valid Base58Check strings too short to hold a known version byte: the empty payload (b"3QJmnh"),
+        # or a single unknown version byte with nothing behind it
+        body = draw(st.sampled_from([b"", b""]) | st.integers(0, 255).filter(lambda v: v not in (0x00, 0x6F, 0x05, 0xC4)).map(lambda v: bytes([v])))
+        return {"kind": kind, "data": rb58.check_encode(body).hex()}
     if kind == "raw":
         return {"kind": kind, "data": draw(st.binary(max_size=100)).hex()}
     if kind in ("mut-b58", "unknown-b58-version", "b58-no-checksum"):
@@ -278,7 +283,7 @@ def _targets(tier):
         Target("keys", check_key, strategy=lambda tier: st.fixed_dictionaries({"k": gen.scalars_valid()}), budget={"quick": 400, "thorough": 8000}),
         Target("negative", check_negative, strategy=lambda tier: negative_cases(), budget={"quick": 5000, "thorough": 100000},
                required=["nt:pk-wrong-len-for-prefix", "nt:unknown-b58-version", "nt:mut-segwit", "nt:mut-b58", "nt:pk-hybrid", "expect-refuse",
-                         "nt:segwit-bad-proglen", "nt:segwit-wrong-const", "nt:segwit-bad-version", "nt:segwit-nonzero-pad", "nt:pk-coord-aliased"]),
+                         "nt:segwit-bad-proglen", "nt:segwit-wrong-const", "nt:segwit-bad-version", "nt:segwit-nonzero-pad", "nt:pk-coord-aliased", "nt:b58-no-version"]),
     ]
 
 
